@@ -314,3 +314,207 @@ Proof.
   - intros x Hx. now apply (cancel_law M V E S accept word terms x Ho Hx).
   - intros -> s rest Et H1 H2. now apply (same_sides_law M V E S word terms s (hd s rest) Ho H1 H2).
 Qed.
+
+(** * Shape of the results *)
+Definition allres (st : list (list bytes)) : bool := forallb is_resolved st.
+
+Lemma is_resolved_iff (h : list bytes) : is_resolved h = true <-> length h = 1.
+Proof. destruct h as [|a [|b t]]; cbn; split; intros; try discriminate; reflexivity || lia. Qed.
+
+Lemma collect_resolved_spec st :
+  collect_resolved st = if allres st then Some (concat (map (hd []) st)) else None.
+Proof.
+  induction st as [|h t IH]; [reflexivity|]. cbn [collect_resolved allres forallb map concat].
+  destruct h as [|a [|b r]]; cbn [is_resolved andb hd]; try reflexivity.
+  fold (allres t). rewrite IH. now destruct (allres t).
+Qed.
+
+Lemma collect_hunks_go_allres st : forall buf acc,
+  allres st = true -> collect_hunks_go st buf acc = (buf ++ concat (map (hd []) st), acc).
+Proof.
+  induction st as [|h t IH]; intros buf acc H; cbn [collect_hunks_go map concat].
+  - now rewrite app_nil_r.
+  - cbn [allres forallb] in H. apply Bool.andb_true_iff in H. destruct H as (H1 & H2).
+    destruct h as [|a [|b r]]; try discriminate H1. cbn [hd]. rewrite IH by exact H2. now rewrite app_assoc.
+Qed.
+
+Lemma collect_hunks_go_acc st : forall buf acc,
+  allres st = false -> snd (collect_hunks_go st buf acc) <> [].
+Proof.
+  induction st as [|h t IH]; intros buf acc H; [discriminate|].
+  cbn [allres forallb] in H. cbn [collect_hunks_go].
+  assert (Mono : forall st b a, a <> [] -> snd (collect_hunks_go st b a) <> []).
+  { clear. induction st as [|h t IH]; intros b a Ha; cbn [collect_hunks_go]; [exact Ha|].
+    destruct h as [|x [|y r]]; apply IH; try assumption; destruct (is_nil b); destruct a; cbn; discriminate. }
+  destruct h as [|a [|b r]].
+  - apply Mono. destruct (is_nil buf); destruct acc; cbn; discriminate.
+  - cbn [is_resolved andb] in H. now apply IH.
+  - apply Mono. destruct (is_nil buf); destruct acc; cbn; discriminate.
+Qed.
+
+Lemma collect_hunks_spec st :
+  match collect_hunks st with
+  | Resolved c => allres st = true /\ c = concat (map (hd []) st)
+  | Conflict _ => allres st = false
+  end.
+Proof.
+  unfold collect_hunks. destruct (allres st) eqn:E.
+  - rewrite collect_hunks_go_allres by assumption. cbn [app]. split; reflexivity.
+  - pose proof (collect_hunks_go_acc st [] [] E) as H.
+    destruct (collect_hunks_go st [] []) as [buf acc]. cbn [snd] in H.
+    destruct acc; [congruence|reflexivity].
+Qed.
+
+Lemma merged_step_length_eq st h :
+  length (merged_step st h) =
+  match h with
+  | [_] => length st
+  | _ => Nat.min (match st with [_] => length h | _ => length st end) (length h)
+  end.
+Proof.
+  unfold merged_step. destruct h as [|a [|b r]].
+  - rewrite map2_length. destruct st as [|x [|y z]]; cbn [length repeat]; reflexivity.
+  - apply map_length.
+  - rewrite map2_length. destruct st as [|x [|y z]]; try reflexivity. now rewrite repeat_length.
+Qed.
+
+Lemma merged_step_length n st h :
+  (length h = 1 \/ length h = n) -> (length st = 1 \/ length st = n) ->
+  (length (merged_step st h) = 1 \/ length (merged_step st h) = n)
+  /\ (length (merged_step st h) = 1 <-> (length st = 1 /\ length h = 1) \/ n = 1).
+Proof.
+  intros Hh Hs. rewrite merged_step_length_eq.
+  destruct h as [|a [|b r]]; destruct st as [|x [|y z]]; cbn [length] in *; lia.
+Qed.
+
+Lemma collect_merged_length n st : 1 <= n ->
+  Forall (fun h => length h = 1 \/ length h = n) st ->
+  forall state, (length state = 1 \/ length state = n) ->
+  let r := fold_left merged_step st state in
+  (length r = 1 \/ length r = n)
+  /\ (length r = 1 <-> (length state = 1 /\ allres st = true) \/ n = 1).
+Proof.
+  intros Hn. induction 1 as [|h t Hh Ht IH]; intros state Hs; cbn [fold_left allres forallb]; cbv zeta.
+  - split; [assumption|]. split; [intros H; left; auto|]. intros [(A & _)|A]; [assumption|]. subst n. destruct Hs; assumption.
+  - destruct (merged_step_length n state h Hh Hs) as (A & B).
+    destruct (IH (merged_step state h) A) as (C & D). cbv zeta in C, D. split; [assumption|].
+    rewrite D, B. fold (allres t). rewrite Bool.andb_true_iff, is_resolved_iff. tauto.
+Qed.
+
+Lemma trivial_merge_in accept (l : list bytes) v :
+  Nat.odd (length l) = true -> trivial_merge bytes_eqb accept l = Some v -> In v l.
+Proof.
+  intros Ho H. apply (trivial_merge_spec bytes_eqb bytes_eqb_spec) in H; [|assumption].
+  destruct H as (H & _). apply (den_in_nonzero bytes_eqb bytes_eqb_spec). unfold den in *. lia.
+Qed.
+
+Lemma from_removes_adds_length {A} (r a : list A) :
+  length a = S (length r) -> length (from_removes_adds r a) = length r + length a.
+Proof.
+  destruct a as [|a0 a]; [discriminate|]. cbn [from_removes_adds length]. intros H. injection H as H.
+  f_equal. revert a H. induction r as [|x r IH]; intros [|y a] H; cbn in *; try discriminate; [reflexivity|].
+  rewrite IH by lia. lia.
+Qed.
+
+Lemma from_removes_adds_in {A} (r a : list A) x :
+  In x (from_removes_adds r a) -> In x r \/ In x a.
+Proof.
+  destruct a as [|a0 a]; [intros []|]. cbn [from_removes_adds]. intros [->|H]; [right; now left|].
+  revert a H. induction r as [|y r IH]; intros [|z a] H; cbn in H; try destruct H.
+  - subst. left; now left.
+  - destruct H as [->|H]; [right; right; now left|]. destruct (IH a H) as [Q|[Q|Q]].
+    + left; now right.
+    + right; now left.
+    + right; right; now right.
+Qed.
+
+Section Shape.
+  Variable M : list bytes -> list bytes -> list (nat * nat).
+  Hypothesis M_valid : forall a b, valid_matching (length a) (length b) (M a b).
+
+  (** Every hunk of the stream is one slice of one input, chosen by [trivial_merge], or the
+      full vector of slices in term order. *)
+  Lemma resolve_hunk_shape accept terms h :
+    Nat.odd (length terms) = true ->
+    In h (hunks (run_steps M line_steps (diff_inputs terms))) ->
+    let ins := diff_inputs terms in
+    let cs := contents ins (snd h) in
+    let r := resolve_hunk accept (length (odds terms)) ins h in
+    (exists c, r = [c] /\ In c cs)
+    \/ (r = from_removes_adds (firstn (length (odds terms)) cs) (skipn (length (odds terms)) cs)
+        /\ length r = length terms /\ 1 < length terms).
+  Proof.
+    intros Ho Hh ins cs r.
+    assert (Hne : ins <> []).
+    { unfold ins. intros E. pose proof (diff_inputs_length terms) as L. rewrite E in L. cbn in L.
+      destruct terms; [discriminate Ho|discriminate L]. }
+    destruct (partition_thm M M_valid line_steps ins Hne) as (PL & _); [discriminate|].
+    assert (Lcs : length cs = length terms).
+    { unfold cs, contents. rewrite map2_length, (PL h Hh). unfold ins. rewrite !diff_inputs_length. apply Nat.min_id. }
+    pose proof (evens_odds_length terms Ho) as EO.
+    assert (Lt : length terms = length (odds terms) + length (evens terms)).
+    { rewrite <- (diff_inputs_length terms). unfold diff_inputs. now rewrite app_length. }
+    unfold r, resolve_hunk. fold cs. destruct (fst h).
+    - left. exists (hd [] cs). split; [reflexivity|]. destruct cs; [cbn in Lcs; lia|now left].
+    - set (k := length (odds terms)) in *.
+      assert (Lf : length (firstn k cs) = k) by (rewrite firstn_length; lia).
+      assert (Ls : length (skipn k cs) = S k) by (rewrite skipn_length; lia).
+      assert (Lm : length (from_removes_adds (firstn k cs) (skipn k cs)) = length terms).
+      { rewrite from_removes_adds_length by lia. lia. }
+      destruct (trivial_merge bytes_eqb accept _) as [c|] eqn:E.
+      + left. exists c. split; [reflexivity|].
+        apply trivial_merge_in in E; [|now rewrite Lm].
+        apply from_removes_adds_in in E. rewrite <- (firstn_skipn k cs).
+        apply in_or_app. tauto.
+      + right. split; [reflexivity|]. split; [assumption|].
+        destruct (Nat.eq_dec (length terms) 1) as [E1|]; [|lia]. exfalso.
+        assert (k = 0) by lia.
+        destruct (from_removes_adds (firstn k cs) (skipn k cs)) as [|a [|b t]] eqn:Q; cbn in Lm; try lia.
+        cbn in E. discriminate.
+  Qed.
+
+  Lemma stream_lengths accept word terms :
+    Nat.odd (length terms) = true ->
+    Forall (fun h => length h = 1 \/ length h = length terms) (merge_stream M accept word terms).
+  Proof.
+    intros Ho.
+    assert (Line : Forall (fun h => length h = 1 \/ length h = length terms)
+                          (resolve_diff_hunks M accept line_steps terms)).
+    { unfold resolve_diff_hunks. apply Forall_map. apply Forall_forall. intros h Hh.
+      destruct (resolve_hunk_shape accept terms h Ho Hh) as [(c & -> & _)|(_ & L & _)]; [now left|now right]. }
+    unfold merge_stream. destruct word; [|exact Line].
+    apply Forall_map. eapply Forall_impl; [|exact Line]. intros m Hm. unfold merge_hunk_by_word.
+    destruct (is_resolved m); [assumption|]. destruct (collect_resolved _); [now left|assumption].
+  Qed.
+
+  (** C04_shape *)
+  Theorem shape_thm accept word terms :
+    Nat.odd (length terms) = true ->
+    let r := merge M accept word terms in
+    (length r = 1 \/ length r = length terms)
+    /\ (forall c, try_merge M accept word terms = Some c <-> merge_hunks M accept word terms = Resolved c)
+    /\ (forall c, try_merge M accept word terms = Some c -> r = [c])
+    /\ (1 < length terms -> (length r = 1 <-> exists c, try_merge M accept word terms = Some c)).
+  Proof.
+    intros Ho. cbv zeta. unfold merge, merge_hunks, try_merge.
+    set (st := merge_stream M accept word terms).
+    pose proof (stream_lengths accept word terms Ho) as SL. fold st in SL.
+    assert (Hn : 1 <= length terms) by (destruct terms; [discriminate Ho|cbn; lia]).
+    destruct (collect_merged_length (length terms) st Hn SL [[]]) as (A & B); [now left|]. cbv zeta in A, B.
+    fold (collect_merged st) in A, B. pose proof (collect_hunks_spec st) as CH.
+    rewrite collect_resolved_spec. repeat split.
+    - exact A.
+    - intros H. destruct (allres st) eqn:E; [|discriminate]. injection H as <-.
+      destruct (collect_hunks st) as [c'|hs]; [destruct CH as (_ & ->); reflexivity|congruence].
+    - intros H. rewrite H in CH. destruct CH as (-> & ->). reflexivity.
+    - intros c H. destruct (allres st) eqn:E; [|discriminate]. injection H as <-.
+      assert (Q : forall acc, fold_left merged_step st [acc] = [acc ++ concat (map (hd []) st)]).
+      { clear - E. induction st as [|h t IH]; intros acc; cbn [fold_left map concat]; [now rewrite app_nil_r|].
+        cbn [allres forallb] in E. apply Bool.andb_true_iff in E. destruct E as (E1 & E2).
+        destruct h as [|a [|b r]]; try discriminate E1. cbn [merged_step map hd]. rewrite IH by exact E2.
+        now rewrite app_assoc. }
+      unfold collect_merged. now rewrite Q.
+    - intros H1. destruct (proj1 B H1) as [(_ & H')|H']; [|lia]. rewrite H'. eauto.
+    - intros (c & H1). apply (proj2 B). left. split; [reflexivity|]. destruct (allres st); [reflexivity|discriminate].
+  Qed.
+End Shape.
